@@ -112,6 +112,17 @@ func ref(m M) M {
 	return out
 }
 
+// aref is the reference an action holds to an asset: usually the asset's own, now and then a stale one as in a flow
+// imported from another workspace — the name of an existing asset under a UUID the assets do not have.
+func (g *scenGen) aref(m M) M {
+	out := ref(m)
+	if _, ok := out["uuid"]; ok && g.r.Chance(0.06) {
+		out["uuid"] = UUID4(g.r)
+		g.note("stale-reference")
+	}
+	return out
+}
+
 // Gen builds a scenario from r.
 func Scen(r *fw.Rand, o ScenOpts) *Scenario {
 	g := &scenGen{r: r, o: o, s: &Scenario{}}
@@ -727,7 +738,7 @@ func (g *scenGen) groupRefs(n int, allowQuery bool) []any {
 		case r.Chance(0.1):
 			out = append(out, M{"name_match": fw.Pick(r, []string{"Testers", "@contact.fields.nick", "@(\"Cust\" & \"omers\")", "Nope"})})
 		case len(pool) > 0:
-			out = append(out, ref(fw.Pick(r, pool)))
+			out = append(out, g.aref(fw.Pick(r, pool)))
 		}
 	}
 	if out == nil {
@@ -801,7 +812,7 @@ func (g *scenGen) action(ftype string, flowIdx int, loc M) M {
 			a["all_urns"] = true
 		}
 		if r.Chance(0.15) {
-			a["template"] = ref(g.tpls[0])
+			a["template"] = g.aref(g.tpls[0])
 			tv := []string{g.tpl(), "@fields.age"}
 			a["template_variables"] = tv
 			g.translate(loc, u, "template_variables", tv, g.tpl)
@@ -837,7 +848,7 @@ func (g *scenGen) action(ftype string, flowIdx int, loc M) M {
 		a["timezone"] = fw.Pick(r, []string{"Africa/Kigali", "America/Guayaquil", "", "Nowhere/Land", "@input.text", "UTC", "Asia/Kolkata"})
 	case "set_contact_channel":
 		if r.Chance(0.85) {
-			a["channel"] = ref(g.chanOr(r.Intn(3)))
+			a["channel"] = g.aref(g.chanOr(r.Intn(3)))
 		} else {
 			a["channel"] = nil
 		}
@@ -854,13 +865,13 @@ func (g *scenGen) action(ftype string, flowIdx int, loc M) M {
 		a["scheme"] = fw.Pick(r, []string{"tel", "tel", "twitter", "mailto", "facebook"})
 		a["path"] = fw.Pick(r, []string{"+12065551212", "+12065559999", "@input.text", "bob", "foo@bar.com", "12065551212", "@(1/0)", "  +1 206 555 1212 ", "@fields.nick"})
 	case "add_input_labels":
-		a["labels"] = []any{ref(fw.Pick(r, g.labels))}
+		a["labels"] = []any{g.aref(fw.Pick(r, g.labels))}
 		if r.Chance(0.2) {
 			a["labels"] = []any{M{"name_match": "@(\"Sp\" & \"am\")"}, M{"uuid": UUID4(r), "name": "Gone"}}
 		}
 	case "open_ticket":
 		if r.Chance(0.7) {
-			a["topic"] = ref(fw.Pick(r, g.topics))
+			a["topic"] = g.aref(fw.Pick(r, g.topics))
 		}
 		a["body"] = g.tpl()
 		if r.Chance(0.5) {
@@ -903,7 +914,7 @@ func (g *scenGen) action(ftype string, flowIdx int, loc M) M {
 		}
 	case "call_classifier":
 		if r.Chance(0.9) {
-			a["classifier"] = ref(g.classifiers[0])
+			a["classifier"] = g.aref(g.classifiers[0])
 		} else {
 			a["classifier"] = M{"uuid": UUID4(r), "name": "Gone"}
 		}
@@ -945,7 +956,7 @@ func (g *scenGen) action(ftype string, flowIdx int, loc M) M {
 			a["exclusions"] = M{"in_a_flow": true}
 		}
 	case "request_optin":
-		a["optin"] = ref(g.optins[0])
+		a["optin"] = g.aref(g.optins[0])
 	case "say_msg":
 		a["text"] = g.tpl()
 		if a["text"] == "" {
